@@ -51,6 +51,7 @@ type Result struct {
 	TimedOut  bool
 	Wall      float64
 	JSONLines int64
+	SimTraces int64
 	// OK means TLC finished the run and reported no error.
 	OK bool
 	// PropertyViolated: TLC finished with an invariant / property / postcondition violation.
@@ -69,6 +70,8 @@ var (
 	reStats = regexp.MustCompile(`^(\d+) states generated, (\d+) distinct states found`)
 	reDepth = regexp.MustCompile(`depth of the complete state graph search is (\d+)`)
 	reHWM   = regexp.MustCompile(`<<"HWM", (\d+)>>`)
+	reSim   = regexp.MustCompile(`The number of states generated: (\d+)`)
+	reSimTr = regexp.MustCompile(`(\d+) states checked, (\d+) traces generated`)
 	reCov0  = regexp.MustCompile(`^<(\w+) line .*>: 0:0`)
 )
 
@@ -171,6 +174,15 @@ func Run(o Options) (*Result, error) {
 				if m := reStats.FindStringSubmatch(line); m != nil {
 					res.Generated, _ = strconv.ParseInt(m[1], 10, 64)
 					res.Distinct, _ = strconv.ParseInt(m[2], 10, 64)
+				}
+				if m := reSim.FindStringSubmatch(line); m != nil {
+					res.Generated, _ = strconv.ParseInt(m[1], 10, 64)
+					if res.Distinct == 0 {
+						res.Distinct = res.Generated
+					}
+				}
+				if m := reSimTr.FindStringSubmatch(line); m != nil {
+					res.SimTraces, _ = strconv.ParseInt(m[2], 10, 64)
 				}
 				if m := reDepth.FindStringSubmatch(line); m != nil {
 					res.Depth, _ = strconv.Atoi(m[1])
